@@ -434,6 +434,11 @@ class AllocatedScoreDistributor:
         quota = self.quota_function(sum(votes.values()), n_seats)
         while rem_seats > 0:
             agg_scores = self._sum_scores(current_votes)
+            if not agg_scores:
+                # No remaining ballot scores anybody: nothing left to spend.
+                raise votelib.evaluate.core.VotingSystemError(
+                    'ballots exhausted before all seats were filled'
+                )
             best = votelib.evaluate.core.get_n_best(agg_scores, 1)[0]
             if isinstance(best, votelib.evaluate.core.Tie):
                 if rem_seats >= len(best):
@@ -558,15 +563,11 @@ class AllocatedScoreDistributor:
                          cand: Candidate,
                          ) -> Tuple[List[ScoreVoteType], Any]:
         best_votes = []
-        # Bootstrap with overall minimum score.
-        best_score = min(
-            min(score for cand, score in vote)
-            for vote in current_votes
-        )
+        best_score = None
         for vote in current_votes:
             for c, score in vote:
                 if c == cand:
-                    if score > best_score:
+                    if best_score is None or score > best_score:
                         best_votes = [vote]
                         best_score = score
                     elif score == best_score:
